@@ -11,6 +11,17 @@ fn main() {
     if args.is_empty() {
         usage();
     }
+    if args[0] == "--emit-corpus" {
+        let dir = args.get(1).cloned().unwrap_or_else(|| usage());
+        for (target, _, _) in vh::FUZZ_TARGETS {
+            let d = format!("{}/{}", dir, target);
+            std::fs::create_dir_all(&d).expect("create corpus dir");
+            for (i, bytes) in vh::seed_corpus(target).iter().enumerate() {
+                std::fs::write(format!("{}/seed{:02}", d, i), bytes).expect("write seed");
+            }
+        }
+        return;
+    }
     let id = args[0].clone();
     let mut tier = match std::env::var("VERIF_TIER").ok().as_deref() {
         Some("thorough") => Tier::Thorough,
